@@ -449,6 +449,95 @@ def rule_r8(prog, res):
     res.floor('R8', 'reads of the direct-children registry', n, 4)
 
 
+# ------------------------------------------------------------------- R9
+def rule_r9(prog, res):
+    res.rule('R9', 'a class joins its parent\'s subclass registry iff it is '
+             'an original subclass; the inherited registry is dropped only '
+             'when it is the parent\'s own list')
+    f = prog.cls('spyne.model.complex:ComplexModelMeta').methods.get(
+        '__init__')
+    if f is None:
+        raise AnalysisError('ComplexModelMeta.__init__', 'not found')
+    n = 0
+    base = [('extends is None', False), ('self.__orig__ is None', True)]
+    for a in walk_no_defs(f.node):
+        t = unparse(a) if isinstance(a, (ast.Assign, ast.Expr)) else ''
+        if isinstance(a, ast.Expr) and isinstance(a.value, ast.Call) and \
+                call_name(a.value) == 'append' and '_subclasses' in t:
+            n += 1
+            guardspec.check(res, 'R9', f, a, 'registration with the parent '
+                            '(%s)' % t[:40], allowed=base, required=base,
+                            key='ComplexModelMeta.__init__|register')
+        elif isinstance(a, ast.Assign) and '_subclasses' in unparse(
+                a.targets[0]) and isinstance(a.value, ast.Constant) and \
+                a.value.value is None:
+            n += 1
+            req = base + [('self.Attributes._subclasses is eattr._subclasses',
+                           True)]
+            guardspec.check(res, 'R9', f, a, 'reset of the inherited '
+                            'registry (%s)' % t[:50], allowed=req,
+                            required=req,
+                            key='ComplexModelMeta.__init__|reset')
+    res.floor('R9', 'registry writes in ComplexModelMeta.__init__', n, 2)
+
+
+# ------------------------------------------------------------------ R10
+def rule_r10(prog, res):
+    res.rule('R10', 'the polymorphic switch inspects every non-None '
+             'instance; unprefixed xsi:type values are looked up in the '
+             'default namespace')
+    pm = prog.cls('spyne.protocol._base:ProtocolMixin')
+    g = pm.methods.get('get_polymorphic_target')
+    if g is None:
+        raise AnalysisError('ProtocolMixin.get_polymorphic_target',
+                            'not found')
+    guardspec.presence_rule(
+        res, 'R10', [g], {'inst', 'value', 'instance'},
+        'ComplexModelBase defines __len__ as the number of own fields, so an '
+        'instance of a subclass that adds no field of its own is falsy: it '
+        'is written as its declared base, without a type marker')
+    res.ob('R10', g.where, 'get_polymorphic_target: no truthiness test on '
+           'the instance', 'ok')
+    x = prog.cls('spyne.protocol.xml:XmlDocument')
+    f = x.methods.get('from_element')
+    n = 0
+    for c in calls_in(f.node):
+        if call_name(c) == 'get' and isinstance(c.func, ast.Attribute) and \
+                unparse(c.func.value).endswith('nsmap') and c.args and \
+                isinstance(c.args[0], ast.Name):
+            n += 1
+            var = c.args[0].id
+            none_bound = False
+            for a in walk_no_defs(f.node):
+                if isinstance(a, ast.Assign):
+                    for t in a.targets:
+                        if isinstance(t, ast.Name) and t.id == var and \
+                                isinstance(a.value, ast.Constant) and \
+                                a.value.value is None:
+                            none_bound = True
+                        if isinstance(t, ast.Tuple) and isinstance(
+                                a.value, ast.Tuple):
+                            for tt, vv in zip(t.elts, a.value.elts):
+                                if isinstance(tt, ast.Name) and \
+                                        tt.id == var and isinstance(
+                                        vv, ast.Constant) and \
+                                        vv.value is None:
+                                    none_bound = True
+            where = '%s:%d' % (f.module.relpath, c.lineno)
+            res.ob('R10', where, 'from_element: %s with %s %s' % (
+                unparse(c), var, 'bound to None for unprefixed names'
+                if none_bound else 'never None'),
+                'ok' if none_bound else 'VIOLATED')
+            if not none_bound:
+                res.finding('R10', 'XmlDocument.from_element|default-ns|%s' %
+                            var, where, 'the prefix handed to %s is never '
+                            'None: lxml keys the default namespace by None, '
+                            'so an unprefixed xsi:type (a document that '
+                            'declares the target namespace as default) is '
+                            'looked up under "" and rejected' % unparse(c))
+    res.floor('R10', 'namespace-map lookups in from_element', n, 1)
+
+
 def run(prog, res, tier):
     res.run_rule(rule_r1, prog, res)
     res.run_rule(rule_r2, prog, res)
@@ -458,6 +547,8 @@ def run(prog, res, tier):
     res.run_rule(rule_r6, prog, res)
     res.run_rule(rule_r7, prog, res)
     res.run_rule(rule_r8, prog, res)
+    res.run_rule(rule_r9, prog, res)
+    res.run_rule(rule_r10, prog, res)
 
 
 _C = 'spyne/model/complex.py'
@@ -467,6 +558,33 @@ _I = 'spyne/interface/_base.py'
 _H = 'spyne/protocol/dictdoc/hier.py'
 
 MUTANTS = [
+    Mutant('variants-register-as-subclasses', 'R9', 'fire', _C,
+           in_func('ComplexModelMeta.__init__',
+                   "if extends is not None and self.__orig__ is None:",
+                   "if extends is not None and extends.__orig__ is None:"),
+           'register'),
+    Mutant('registry-reset-for-variants', 'R9', 'fire', _C,
+           in_func('ComplexModelMeta.__init__',
+                   "            if self.Attributes._subclasses is "
+                   "eattr._subclasses:\n"
+                   "                self.Attributes._subclasses = None\n",
+                   "        if extends is not None:\n"
+                   "            self.Attributes._subclasses = None\n"),
+           'reset'),
+    Mutant('polymorph-skips-falsy', 'R10', 'fire', _P,
+           in_func('ProtocolMixin.get_polymorphic_target',
+                   "        orig_cls = cls.__orig__ or cls\n",
+                   "        if not inst:\n            return cls, False\n"
+                   "        orig_cls = cls.__orig__ or cls\n"),
+           'truthiness'),
+    Mutant('xsi-type-rpartition', 'R10', 'fire', _X,
+           in_func('XmlDocument.from_element',
+                   r"                if \":\" in xsi_type:\n"
+                   r"                    prefix, objtype = xsi_type\.split\("
+                   r"':', 1\)\n                else:\n"
+                   r"                    prefix, objtype = None, xsi_type\n",
+                   "                prefix, _, objtype = xsi_type.rpartition("
+                   "':')\n", regex=True), 'default-ns'),
     Mutant('wrapper-search-direct-children', 'R8', 'fire', _H,
            in_func('HierDictDocument._doc_to_object',
                    "subclasses = cls.get_subclasses()",
